@@ -318,6 +318,11 @@ def direct_writes(func):
             if callee in ("std::back_inserter", "std::inserter", "std::front_inserter") and e.get("args") and e["args"][0].get("f"):
                 out.append((e["args"][0]["f"], "call:" + name, e))
                 continue
+            if name == "swap" and (strip_tmpl(callee).startswith("std::") or callee in ("std::swap",)):
+                # x.swap(y) / std::swap(x, y) write both operands (e.g. `std::vector<T>().swap(member)` empties the member)
+                for a_ in e.get("args", []):
+                    if a_.get("f"):
+                        out.append((a_["f"], "call:swap", e))
             f = rv.get("f")
             if not f:
                 continue
